@@ -149,6 +149,7 @@ def numeric(ctx):
 
 def run(ctx):
     C.ensure_impl_path()
+    stft.regenerate(ctx)
     pr = C.proof_step(ctx)
     rng = ctx.rng
     # (i) framing of the torch port, captured at the FFT input
